@@ -117,9 +117,9 @@ Section UAFProofs.
     k + length ins = length lst ->
     fullFold fold st ins k lst acc = Ok (take k lst ++ map st ins, fold_left fold (map st ins) acc).
   Proof.
-    revert k lst acc; induction ins as [|i ins IH]; intros k lst acc Hlen; simpl.
+    revert k lst acc; induction ins as [|i ins IH]; intros k lst acc Hlen; simpl in *.
     - rewrite app_nil_r, take_ge by lia. reflexivity.
-    - simpl in Hlen. destruct (Nat.ltb_spec k (length lst)) as [Hlt|]; [|lia].
+    - destruct (Nat.ltb_spec k (length lst)) as [Hlt|]; [|lia].
       rewrite IH by (rewrite insert_length; lia). f_equal. f_equal.
       rewrite (take_S_r (<[k := st i]> lst) k (st i)) by (apply list_lookup_insert; exact Hlt).
       rewrite take_insert by lia. rewrite <- app_assoc. reflexivity.
@@ -231,8 +231,8 @@ Section UAFProofs.
                destruct (Nat.eqb_spec id j) as [->|]; [|exact I].
                exfalso. apply Hnin', slots_spec, Hs.
         + eexists; split; [reflexivity|]. split; [reflexivity|]. split; [|discriminate].
-          constructor; simpl; auto; try discriminate.
-          rewrite Hf. discriminate.
+          constructor; simpl; auto; try discriminate; rewrite Hf; auto.
+          intros H; discriminate H.
       - (* Recompute *)
         destruct Hadm as (-> & -> & Hadm).
         unfold stabilize. destruct (folded f) eqn:Hf; simpl.
@@ -242,14 +242,14 @@ Section UAFProofs.
             by (rewrite Hv; apply apply_chain, Hch).
           split.
           * constructor; simpl; auto; try discriminate.
-            -- intros Hr. rewrite (Hcomp Hr), Hf. reflexivity.
+            -- intros _. apply orb_true_r.
             -- intros _. exists (last f). repeat split; auto.
           * intros _. simpl. rewrite Hval. unfold full. f_equal. apply agree_all; auto.
         + rewrite fullFold_spec by (simpl; lia). simpl.
           eexists; split; [reflexivity|]. split; [reflexivity|]. split.
           * constructor; simpl; auto; try discriminate.
             -- rewrite map_length. reflexivity.
-            -- intros Hr. rewrite (Hcomp Hr), Hf. reflexivity.
+            -- intros _. apply orb_true_r.
             -- intros _. exists (map st inputs). repeat split; auto.
                intros slot id Hs _. change (map st inputs) with (st <$> inputs).
                rewrite list_lookup_fmap, Hs. reflexivity.
@@ -257,11 +257,16 @@ Section UAFProofs.
       - (* Unlink *)
         destruct Hadm as [-> Hadm].
         eexists; split; [reflexivity|]. split; [reflexivity|]. split; [|discriminate].
-        unfold release. destruct reset eqn:Hr; constructor; simpl; auto; try discriminate.
-        intros Hf. destruct (Hfold Hf) as (base & Hv & Hch & Hag).
-        exists base. repeat split; auto.
-        destruct (Hq eq_refl) as [Hd _]. rewrite (Hcomp eq_refl), Hf in Hd.
-        rewrite (Hd eq_refl) in Hag. exact Hag.
+        unfold release. constructor; simpl; try discriminate.
+        + destruct reset; exact Hlen.
+        + reflexivity.
+        + intros -> _. reflexivity.
+        + intros Hr. rewrite Hr. apply Hcomp, Hr.
+        + destruct reset eqn:Hr; simpl; [intros H; discriminate H|].
+          intros Hf. destruct (Hfold Hf) as (base & Hv & Hch & Hag).
+          exists base. repeat split; auto.
+          destruct (Hq eq_refl) as [Hd _]. rewrite (Hcomp eq_refl), Hf in Hd.
+          rewrite (Hd eq_refl) in Hag. exact Hag.
       - (* Relink *)
         destruct Hadm as [-> Hadm].
         eexists; split; [reflexivity|]. split; [reflexivity|]. split; [|discriminate].
@@ -279,12 +284,12 @@ Section UAFProofs.
     Proof.
       induction h as [|e h IH]; intros dirty computed w Hinv Hadm Hq; simpl app in *.
       - destruct (step_inv _ _ _ _ _ Hinv Hadm Hq) as (w' & Hstep & _ & _ & Hval).
-        exists w'. unfold run; simpl. rewrite Hstep. simpl. auto.
+        exists w'. unfold run; cbn [rfold]. rewrite Hstep. cbn [rbind]. auto.
       - destruct (step_inv _ _ _ _ _ Hinv Hadm Hq) as (w' & Hstep & Hl & Hinv' & _).
         destruct (IH _ _ w' Hinv') as (w'' & Hrun & Hval).
         + rewrite Hl. apply admissible_cons, Hadm.
         + intros Hr. rewrite Hl. apply quiet_cons, Hq, Hr.
-        + exists w''. split; [|exact Hval]. unfold run in *; simpl. rewrite Hstep. simpl. exact Hrun.
+        + exists w''. split; [|exact Hval]. unfold run in *; cbn [rfold]. rewrite Hstep. cbn [rbind]. exact Hrun.
     Qed.
   End Variant.
 
@@ -361,10 +366,9 @@ Section ReduceProofs.
   Lemma pair_level_length {T} (m : T -> T -> T) (l : list T) :
     length (pair_level m l) = Nat.div2 (S (length l)).
   Proof.
-    induction l as [|a [|b l] IH] using (induction_ltof1 _ (@length T)); unfold ltof in *.
-    - reflexivity.
-    - destruct l as [|b l]; [reflexivity|].
-      simpl. rewrite IH by (simpl; lia). reflexivity.
+    induction l as [l IH] using (induction_ltof1 _ (@length T)); unfold ltof in *.
+    destruct l as [|a [|b l]]; try reflexivity.
+    simpl. rewrite IH by (simpl; lia). reflexivity.
   Qed.
 
   (* pairing a level up keeps the left-to-right reduction *)
@@ -396,8 +400,8 @@ Section ReduceProofs.
       + simpl. discriminate.
       + rewrite pair_level_length. simpl length in *.
         assert (Nat.div2 (S (S (S (length l)))) <= S (length l)); [|lia].
-        simpl. destruct (length l) as [|n]; [lia|].
-        pose proof (Nat.div2_decr (S n) (S n)). simpl in *. lia.
+        pose proof (Nat.div2_decr (S (length l)) (length l) ltac:(lia)).
+        change (Nat.div2 (S (S (S (length l))))) with (S (Nat.div2 (S (length l)))). lia.
       + exists t. split; [exact Hrun|]. rewrite Hev. apply pair_level_head.
   Qed.
 
@@ -461,7 +465,7 @@ Proof.
   unfold forAll. unfold reduce_tree, reduceBalanced in Hrun. simpl map in *. cbv iota in Hrun.
   destruct (reduce_loop Node (length (Leaf b :: map Leaf values)) (Leaf b :: map Leaf values)) as [t'| |] eqn:Hl;
     try discriminate.
-  simpl in Hrun. injection Hrun as ->. rewrite map_length in Hl. simpl length in *.
+  simpl in Hrun. injection Hrun as ->. simpl length in *. rewrite map_length in Hl.
   rewrite Hl. simpl. rewrite Hev. simpl. rewrite foldl1_andb. reflexivity.
 Qed.
 
@@ -473,6 +477,6 @@ Proof.
   unfold exists_. unfold reduce_tree, reduceBalanced in Hrun. simpl map in *. cbv iota in Hrun.
   destruct (reduce_loop Node (length (Leaf b :: map Leaf values)) (Leaf b :: map Leaf values)) as [t'| |] eqn:Hl;
     try discriminate.
-  simpl in Hrun. injection Hrun as ->. rewrite map_length in Hl. simpl length in *.
+  simpl in Hrun. injection Hrun as ->. simpl length in *. rewrite map_length in Hl.
   rewrite Hl. simpl. rewrite Hev. simpl. rewrite foldl1_orb. reflexivity.
 Qed.
